@@ -430,12 +430,15 @@ def read_meme(filename, n_motifs=None):
 				pwm[i] = list(map(float, line.strip("\r\n").split()))
 				i += 1
 
-			else:
-				motifs[motif] = torch.from_numpy(pwm.T)
-				motif, width, i = None, None, 0
+				# Store the motif as soon as its last row has been read rather 
+				# than when the line after the matrix is encountered, which may
+				# not exist or may already be the next MOTIF line.
+				if i == width:
+					motifs[motif] = torch.from_numpy(pwm.T)
+					motif, width, i = None, None, 0
 
-				if n_motifs is not None and len(motifs) == n_motifs:
-					break
+					if n_motifs is not None and len(motifs) == n_motifs:
+						break
 
 	return motifs
 
